@@ -54,7 +54,10 @@ func Decode(b []byte) (*Message, error) {
 		if c++; !(c+olen <= plen) {
 			break
 		}
-		msg.Options = append(msg.Options, DHCPOpt{Option: opt, Data: b[c : c+olen]})
+		// Copy the payload: callers reuse their receive buffer while handlers still hold the options.
+		data := make([]byte, olen)
+		copy(data, b[c:c+olen])
+		msg.Options = append(msg.Options, DHCPOpt{Option: opt, Data: data})
 		c += olen
 	}
 	if opt != 0xff {
